@@ -314,6 +314,13 @@ def run(ctx, spec):
     cases = corpus + spec.gen(ctx)
     impl = run_cases(admdrv, cases)
     model = run_cases(modeldrv, cases) if modeldrv else [None] * len(cases)
+    # a case is compared up to the first call the harness declines to make on libadm ("unsupported")
+    for k in range(len(cases)):
+        if 'unsupported' in impl[k]:
+            j = impl[k].index('unsupported')
+            impl[k] = impl[k][:j]
+            if model[k] is not None:
+                model[k] = model[k][:j]
     disagreements = []
     findings = {}      # tag -> (case index, message)
     hist = {}
@@ -352,6 +359,9 @@ def run(ctx, spec):
         def differs(lines):
             a = run_cases(admdrv, [lines], shards=1)[0]
             b = run_cases(modeldrv, [lines], shards=1)[0]
+            if 'unsupported' in a:
+                j = a.index('unsupported')
+                a, b = a[:j], b[:j]
             return a != b
         small = shrink(cases[k], differs)
         a = run_cases(admdrv, [small], shards=1)[0]
